@@ -9,6 +9,7 @@ Bind:  every key of the element table and every modifier applied to elements
 """
 from __future__ import annotations
 
+import re
 import time
 
 from . import common, extract, runner, tlc
@@ -16,6 +17,8 @@ from .common import cps
 
 PID = "C09"
 SKIP_KEYS = {"Q"}                 # exit()
+# the template process_element() builds: pop the arity, push exactly one result
+PE_SHAPE = re.compile(r"^[a-z_]+(, [a-z_]+)* = pop\(stack, \d+, ctx\); stack\.append\(")
 MONADIC, DYADIC, TRIADIC = "v⁽&~ßƒɖ", "₌‡₍", "≬"
 
 
@@ -95,7 +98,11 @@ def observe(case):
     from vyxal.helpers import deep_copy
     from vyxal.LazyList import LazyList
     alias_plain = None
-    variant = seed % 4          # the driver numbers the tuples of a key 0, 1, 2, ... in the low bits of the seed
+    variant = seed % 8          # the driver numbers the tuples of a key 0, 1, 2, ... in the low bits of the seed
+    garr_view = None
+    if variant == 4:
+        garr_view = [7, [8, 9]]
+        variant = 0
     if variant:
         # with a list as first argument the common case is small integers for the others (index, count, value)
         for j in range(1, len(args)):
@@ -106,8 +113,18 @@ def observe(case):
         args[0] = list(plain) if variant == 2 else LazyList(iter(list(plain)))
         sentinels = sentinels + ([args[0]] if variant == 3 else [deep_copy(args[0])])
         alias_plain = plain
+    ns = runner.fresh_ns(stack=[])
+    if garr_view is not None:
+        # an entry below that an EARLIER element produced from interpreter state: the copy of the global array
+        # that `¾` pushes (its real template is run; the entry is not looked at before the element under test runs,
+        # its value is known by construction)
+        ns["ctx"].global_array = [7, [8, 9]]
+        exec(E.elements["¾"][0], ns)
+        sentinels = sentinels + [ns["stack"].pop()]
     stack = sentinels + args
     text = (m or "") + "".join(opkeys)
+    tmpl = E.elements.get(key, ("", 1))[0] if not m else ""
+    pe = bool(PE_SHAPE.match(tmpl)) and tmpl.count("stack") == 2
     idmap = {}
 
     def ids(st):
@@ -116,13 +133,15 @@ def observe(case):
     ev = {"key": cps(key), "opkey": cps(opkeys[0]) if opkeys else [], "m": ord(m) if m else 0, "ka": ka, "kb": kb,
           "ids0": ids(stack),
           "vals0": [snapshot(x) for x in sentinels[:3]] + ([c08_tagged(alias_plain)] if alias_plain is not None else [])
-                   + [{"a": 1}] * nargs,
+                   + ([c08_tagged(garr_view)] if garr_view is not None else []) + [{"a": 1}] * nargs,
+          "ta": ta, "tb": tb, "pe": pe,
           "topint": args[-1] if isinstance(args[-1], int) and not isinstance(args[-1], bool) and abs(args[-1]) < 1000 else -1,
           "strarg": isinstance(args[-1], str), "raised": "", "ids1": [], "vals1": []}
     keep_alive = list(stack)  # so that ids are not recycled
     try:
         code = transpile(text) if m else E.elements[key][0]
-        ns = runner.fresh_ns(stack=stack)
+        ns["stack"][:] = stack
+        stack = ns["stack"]
         with runner.CaptureStdout():
             common.with_alarm(lambda _: exec(code, ns), None, 5)
         st = ns["stack"]
@@ -149,11 +168,11 @@ def main(tier):
     common.import_repo()
     elems, mods = extract.element_table()
     keys = [k for k in dict.fromkeys(e["key"] for e in elems) if k not in SKIP_KEYS]
-    per = 3 if tier == "quick" else 40
+    per = 4 if tier == "quick" else 40
     cs = []
     for k in keys:
         for i in range(per):
-            cs.append(("elem", k, "", [k], rng.randint(0, 10 ** 8) * 4 + (i + 1) % 4))
+            cs.append(("elem", k, "", [k], rng.randint(0, 10 ** 8) * 8 + (i + 1) % 5))
     mper = 1 if tier == "quick" else 6
     for m in MONADIC + DYADIC + TRIADIC:
         n = 1 if m in MONADIC else 2 if m in DYADIC else 3
@@ -162,13 +181,13 @@ def main(tier):
                 ops = [k] + [rng.choice(["+", "›", "d", "N", ":", "W", "_"]) for _ in range(n - 1)]
                 if i % 2 and n > 1:
                     ops = ops[1:] + ops[:1]
-                cs.append(("mod", k, m, ops, rng.randint(0, 10 ** 8) * 4 + (i % 4 if mper > 1 else rng.randint(0, 3))))
+                cs.append(("mod", k, m, ops, rng.randint(0, 10 ** 8) * 8 + (i % 5 if mper > 1 else rng.randint(0, 4))))
     with common.Scratch(PID) as s:
         mc = tlc.model_check(s, "MC_Machine", cfg="MC_Machine_quick", workers=16, xss="512m", xmx="16g", timeout=3000)
         if not mc["ok"]:
             V.add("spec:MC_Machine:" + str(mc["violated"]), {"trace": tlc.counterexample(mc["out"])})
         obs = common.pool_map(observe, cs, initfn=common.import_repo, hard_timeout=30,
-                              on_timeout=lambda c: {"key": cps(c[1]), "opkey": [], "m": 0, "ka": 0, "kb": 0, "ids0": [], "vals0": [], "topint": -1,
+                              on_timeout=lambda c: {"key": cps(c[1]), "opkey": [], "m": 0, "ka": 0, "kb": 0, "ta": 0, "tb": 0, "pe": False, "ids0": [], "vals0": [], "topint": -1,
                                                     "strarg": False, "raised": "hang", "ids1": [], "vals1": []})
         verdicts, st = tlc.validate(s, "Trace_Frame", obs, cfg="Trace_Frame.cfg", chunk=3000)
     tally = {}
